@@ -21,6 +21,10 @@ def jobs(tier):
     # ordering disabled: own statements only; real file read back; concurrent flusher
     add("c06.ub", 2, grace=0, adv=0, a=2, b=1, file=1)
     add("c06.ub", 1 if q else 2, grace=0, adv=0, a=1, b=1, f3=1)
+    # the other thread's queue has grown to a second buffer while the read pass ended on the hard limit at the end of the
+    # first one; batch processing of the cached events
+    add("c05.grow", 1, grace=1, na=6, soft=4, hard=4, tbuf=4, points=0, flush=1, sleepadv_ns=2000)
+    add("c05.grow", 1, grace=1, na=6, soft=2, hard=2, tbuf=2, points=0, flush=1, sleepadv_ns=2000)
     # dropping queue nearly full: the flush request is rejected and retried, never counted as dropped
     add("c06.bd", 1 if q else 2, grace=0, adv=0, a=2, apad=84, b=1)
     add("c06.bd", 2, grace=0, adv=0, a=3, apad=84, b=0, f2=0)
